@@ -282,7 +282,8 @@ func ZZH_C10_net_changes() {
 	zzCommit(l, 1)
 	net := zz.Choice("net", 3) // 0 delete, 1 new value, 2 untouched
 	w := []byte{zz.U8("w")}
-	detour := zz.Choice("detour", 4)
+	detour := zz.Choice("detour", 6)
+	zz.Tag("C10.F-touched-record-hashed", detour >= 4)
 	run := func(plain bool) ([]byte, bool, []byte) {
 		x := zzNewLedger(store.Clone(), nil)
 		apply := func() {
@@ -311,6 +312,15 @@ func ZZH_C10_net_changes() {
 				apply()
 				id := x.Snapshot()
 				x.SetState(zzAddrs[0], []byte("a"), nil, nil)
+				x.RevertToSnapshot(id)
+			case 4: // the account's balance is credited and debited by the same amount (net: untouched)
+				x.AddBalance(zzAddrs[0], big.NewInt(5))
+				apply()
+				x.SubBalance(zzAddrs[0], big.NewInt(5))
+			case 5: // a balance write inside a snapshot that is reverted (a failing transfer to the account)
+				apply()
+				id := x.Snapshot()
+				x.SetBalance(zzAddrs[0], big.NewInt(9))
 				x.RevertToSnapshot(id)
 			case 3: // a reverted write first, then the change
 				id := x.Snapshot()
